@@ -259,6 +259,8 @@ type c08Case struct {
 	BlobLen int     `json:"blob_len,omitempty"`
 	N       int     `json:"n,omitempty"`
 	Seed    uint64  `json:"seed,omitempty"`
+	Repeat  bool    `json:"repeated_chunks,omitempty"` // extract: the index repeats chunks (A B C D B E A F)
+	Signal  string  `json:"signal,omitempty"`          // extract-signal: TERM | INT, sent at the k-th request, which is then served
 	State   string  `json:"observed_state,omitempty"`
 	What    string  `json:"what,omitempty"`
 }
@@ -683,7 +685,7 @@ func c08TwoWriters(a vh.Args, o *vh.Oracle, r *vh.Result, unc bool, data []byte,
 }
 
 func runC08(a vh.Args, o *vh.Oracle, r *vh.Result) error {
-	r.Rule = "store cases = (format; chunk data; prior store content) x (death on entering every store-related system call of the uninjected trace, and at exit) + (RLIMIT_FSIZE 0, 1, half, size-1; SIGXFSZ fatal or ignored) + two concurrent writers of the same chunk killed at the k-th openat/write/close/renameat/mkdirat of any thread + 6 concurrent writers of one 4 MiB chunk for 25 (150) rounds with an observer polling only the final name + a child running rounds of 4 concurrent writers of one 2 MiB chunk killed with SIGKILL after a random delay; extract cases = (blob, n workers, k) with the process killed at the k-th chunk request, with and without --in-place; non-trivial = the child was actually killed (store) / the kill happened before the last chunk (extract)"
+	r.Rule = "store cases = (format; chunk data; prior store content) x (death on entering every store-related system call of the uninjected trace, and at exit) + (RLIMIT_FSIZE 0, 1, half, size-1; SIGXFSZ fatal or ignored) + two concurrent writers of the same chunk killed at the k-th openat/write/close/renameat/mkdirat of any thread + 6 concurrent writers of one 4 MiB chunk for 25 (150) rounds with an observer polling only the final name + a child running rounds of 4 concurrent writers of one 2 MiB chunk killed with SIGKILL after a random delay; extract cases = (blob, n workers, k) with the process killed at the k-th chunk request, with and without --in-place, incl. indexes with repeated chunks; SIGTERM/SIGINT at EVERY k of a small index (n=1,2; destination existing/absent); non-trivial = the child was actually killed (store) / the kill happened before the last chunk (extract)"
 	desync.Digest = desync.SHA256{}
 	if _, err := exec.LookPath("strace"); err != nil {
 		r.Note("strace not found: process-death cases cannot run")
@@ -783,7 +785,7 @@ func c08Replay(a vh.Args, o *vh.Oracle, r *vh.Result, c *c08Case) error {
 		return c08Concurrent(a, r, c)
 	case "store-concurrent-kill":
 		return c08ConcurrentKill(a, r, c)
-	case "extract-kill", "extract-inplace":
+	case "extract-kill", "extract-inplace", "extract-signal":
 		return c08ExtractCase(a, r, c)
 	}
 	return fmt.Errorf("cannot replay kind %q", c.Kind)
